@@ -196,6 +196,52 @@ def refWriterCms (width depth : Nat) (keys : List Octets) : Octets :=
 def expandingFile (subs : List (Nat × Octets)) (est added fpr32 : Nat) : Octets :=
   (subs.flatMap fun s => u64le s.1 ++ s.2) ++ u64le subs.length ++ u64le est ++ u64le added ++ u32le fpr32
 
+/-! ### expanding / rotating reference writers -/
+
+/-- a sub-filter of the reference writer: `(elements_added, bit array)` -/
+abbrev Sub := Nat × Octets
+
+/-- all documented positions of the key are set in the sub-filter -/
+def subHas (k m : Nat) (key : Octets) (s : Sub) : Bool := (bloomPositions k m key).all (bitOfFile s.2)
+
+def subAdd (k m : Nat) (key : Octets) (s : Sub) : Sub := (s.1 + 1, (bloomPositions k m key).foldl setBit s.2)
+
+def freshSub (m : Nat) : Sub := (0, List.replicate ((m + 7) / 8) 0)
+
+/-- the key goes into the newest sub-filter -/
+def addNewest (k m : Nat) (key : Octets) (subs : List Sub) : List Sub :=
+  match subs.getLast? with
+  | some s => subs.dropLast ++ [subAdd k m key s]
+  | none => subs
+
+/-- expanding filter: a fresh sub-filter is appended once the newest holds `est` elements -/
+def growExpanding (est m : Nat) (subs : List Sub) : List Sub :=
+  match subs.getLast? with
+  | some s => if s.1 ≥ est then subs ++ [freshSub m] else subs
+  | none => subs
+
+/-- rotating filter: when the newest sub-filter holds exactly `est` elements a fresh one is
+    appended, after dropping the oldest if the queue already has `q` sub-filters -/
+def growRotating (est q m : Nat) (subs : List Sub) : List Sub :=
+  match subs.getLast? with
+  | some s =>
+      if s.1 = est then (if subs.length < q then subs ++ [freshSub m] else subs.drop 1 ++ [freshSub m])
+      else subs
+  | none => subs
+
+/-- one `add(key)`: every call counts; a key some sub-filter already reports is not stored again -/
+def addStep (grow : List Sub → List Sub) (k m : Nat) (st : List Sub × Nat) (key : Octets) : List Sub × Nat :=
+  if st.1.any (subHas k m key) then (st.1, st.2 + 1)
+  else (addNewest k m key (grow st.1), st.2 + 1)
+
+def refWriterExpanding (est fpr32 k m : Nat) (keys : List Octets) : Octets :=
+  let st := keys.foldl (addStep (growExpanding est m) k m) ([freshSub m], 0)
+  expandingFile st.1 est st.2 fpr32
+
+def refWriterRotating (est fpr32 k m q : Nat) (keys : List Octets) : Octets :=
+  let st := keys.foldl (addStep (growRotating est q m) k m) ([freshSub m], 0)
+  expandingFile st.1 est st.2 fpr32
+
 /-! ### cuckoo filters -/
 
 /-- every bucket is padded to `bucketSize` slots with the empty-slot marker 0 -/
